@@ -69,9 +69,9 @@ Print Assumptions replica_check_exact.
     that ARE reachable; and on a small fixed graph the check rejects a reachable unsanctioned
     source, ignores an unreachable one, and accepts once the offending edge is gone. *)
 Example graph_not_vacuous :
-  (100 <= List.length roots)%nat /\ (1000 <= List.length adj)%nat
+  Nat.leb 100 (List.length roots) = true /\ Nat.leb 1000 (List.length adj) = true
   /\ existsb (fun nd : positive * desc => PS.mem (fst nd) reach_set) sources = true.
-Proof. vm_compute. repeat split; repeat constructor. Qed.
+Proof. vm_compute. repeat split. Qed.
 
 Example checker_discriminates :
   check_all (of_adj toy_adj) [1%positive] toy_sources toy_allow = false
